@@ -89,8 +89,6 @@
  (let ((?x122 (+ t!4 1)))
 (let ((?x130 (cntK ?x122)))
 (let (($x148 (= keyword_arg_pairs.len!10 ?x130)))
-(let ((?x117 (cntP ?x122)))
-(let (($x145 (= args.len!7 ?x117)))
-(let (($x149 (and $x145 $x148)))
-(not $x149))))))))
+(let (($x149 (and (= args.len!7 (cntP ?x122)) $x148)))
+(not $x149))))))
 (check-sat)
